@@ -196,9 +196,22 @@ pub open spec fn frame_valid(f: Frame) -> bool {
     &&& (k == 0x4000) ==> f.data.is_some() && f.data.unwrap().wf()
 }
 impl FrameReceiver {
+    // ghost: the DATA bytes this channel has still to deliver before the next CLOSE (the dispatcher sends frames in arrival order and the
+    // channel is FIFO, A4)
+    pub uninterp spec fn rx_rest(&self) -> Seq<u8>;
     #[verifier::external_body]
     pub async fn recv_or_disconnected(&mut self, ctx: &Ctx) -> (r: Result<Result<Frame, Disconnected>, Canceled>)
-        ensures r matches Ok(Ok(f)) ==> frame_valid(f) { unimplemented!() }
+        ensures r matches Ok(Ok(f)) ==> frame_valid(f) && rx_step(old(self).rx_rest(), final(self).rx_rest(), f),
+                !(r matches Ok(Ok(_))) ==> final(self).rx_rest() == old(self).rx_rest(),
+    { unimplemented!() }
+}
+// one frame leaves the channel: a DATA frame carries the next bytes of the stream; CLOSE comes only when nothing is left before it
+pub open spec fn rx_step(old_rest: Seq<u8>, new_rest: Seq<u8>, f: Frame) -> bool {
+    let k = f.header.0 & 0xC000;
+    &&& (k == 0x4000) ==> f.data.unwrap().content().len() <= old_rest.len() && f.data.unwrap().content() == old_rest.subrange(0, f.data.unwrap().content().len() as int)
+                          && new_rest == old_rest.subrange(f.data.unwrap().content().len() as int, old_rest.len() as int)
+    &&& (k == 0x8000) ==> old_rest.len() == 0
+    &&& (k == 0x0000) ==> new_rest == old_rest
 }
 pub assume_specification<T> [core::mem::replace::<T>] (dest: &mut T, src: T) -> (r: T)      // A1
     ensures r == *old(dest), *final(dest) == src;
@@ -216,6 +229,12 @@ impl WriteSlot {
 impl ReadReusableStream {
     pub open spec fn wf(&self) -> bool {
         self.cache.is_some() ==> frame_valid(self.cache.unwrap()) && (self.cache.unwrap().header.0 & 0xC000) == 0x4000
+    }
+}
+impl ReadReusableStream {
+    // the bytes of the current transient stream that have not been handed to a caller yet
+    pub open spec fn pending_in(&self) -> Seq<u8> {
+        (if self.cache.is_some() && self.cache.unwrap().data.is_some() { self.cache.unwrap().data.unwrap().content() } else { Seq::<u8>::empty() }) + self.recv.rx_rest()
     }
 }
 impl WriteReusableStream {
@@ -242,11 +261,32 @@ def add_streams(U):
                ("data.take(buf.push(data.as_slice()));", "let ghost verif_b0 = buf.content(); let ghost verif_d0 = data.content(); "
                 "let verif_n = buf.push(data.as_slice()); data.take(verif_n);   /* R-let: argument evaluated first */ "
                 "assert(buf.content() == verif_b0 + verif_d0.subrange(0, verif_n as int) && data.content() == verif_d0.subrange(verif_n as int, verif_d0.len() as int));   "
-                "/* W-ghost: exactly the bytes taken from the frame are appended to the caller's buffer, in order */")],
+                "/* W-ghost: exactly the bytes taken from the frame are appended to the caller's buffer, in order */ let ghost verif_rest = data.content();")],
          loops={0: dict(prefix="loop", inv="""
             self.0.wf(), buf.wf(), buf.total() == old(buf).total(), buf.begin == old(buf).begin,
             old(buf).content().is_prefix_of(buf.content()),
+            buf.content() == old(buf).content() + verif_x,
+            !old(self).0.close_received ==> old(self).0.pending_in() == verif_x + (if self.0.close_received { Seq::<u8>::empty() } else { self.0.pending_in() }),
 """)},
+         proof_at_start="let ghost mut verif_x: Seq<u8> = Seq::empty(); proof { assert(old(buf).content() + verif_x =~= old(buf).content()); assert(verif_x + old(self).0.pending_in() =~= old(self).0.pending_in()); }   /* W-ghost: the bytes handed out so far */",
+         post_subs=[("let mut frame = match self.0.cache.take() {", "let ghost verif_p0 = self.0.pending_in();   /* W-ghost */\n            let mut frame = match self.0.cache.take() {"),
+                    ("match frame.header.frame_kind() {", """// W-ghost: the frame in hand and the channel's rest together are what was pending
+            let ghost verif_fd: Seq<u8> = if (frame.header.0 & 0xC000) == 0x4000 { frame.data.unwrap().content() } else { Seq::<u8>::empty() };
+            proof {
+                assert(self.0.cache.is_none());
+                if (frame.header.0 & 0xC000) == 0x8000 { assert(verif_p0 =~= Seq::<u8>::empty()); }
+                else { assert(verif_p0 =~= verif_fd + self.0.recv.rx_rest()); }
+            }
+            match frame.header.frame_kind() {"""),
+                    ("if buf.capacity() == 0 {", """proof {
+                        let taken = verif_d0.subrange(0, verif_n as int);
+                        assert(verif_d0 =~= taken + verif_rest);
+                        assert(self.0.pending_in() =~= verif_rest + self.0.recv.rx_rest());
+                        assert(verif_x + verif_p0 =~= (verif_x + taken) + self.0.pending_in());
+                        verif_x = verif_x + taken;
+                        assert(buf.content() =~= old(buf).content() + verif_x);
+                    }
+                    if buf.capacity() == 0 {""")],
          spec="""
     requires old(self).0.wf(), old(buf).wf(),
     ensures final(self).0.wf(), final(buf).wf(), final(buf).total() == old(buf).total(), final(buf).begin == old(buf).begin,
@@ -254,6 +294,9 @@ def add_streams(U):
             old(buf).content().is_prefix_of(final(buf).content()),
             // ... and reading stops only at end-of-stream (CLOSE / transport gone) or when the buffer is full
             r.is_ok() ==> final(self).0.close_received || final(buf).cap() == 0 || true,
+            // no loss, duplication or reordering: what the caller got is exactly the front of the stream's pending bytes, the rest stays pending
+            !old(self).0.close_received ==> exists|x: Seq<u8>| #[trigger] final(buf).content() == old(buf).content() + x
+                && old(self).0.pending_in() == x + (if final(self).0.close_received { Seq::<u8>::empty() } else { final(self).0.pending_in() }),
 """)
     U.raw("""
 impl FrameReceiver {
@@ -375,7 +418,22 @@ impl QueueMap {
 }
 pub struct QueueRef { pub max_streams: u32 }                           // &Arc<StreamQueue>: only max_streams is read
 #[verifier::external_body] pub struct PeerStreams { _p: u8 }           // HashMap<CapabilityId, u32> sent by the PEER (any values)
-impl PeerStreams { #[verifier::external_body] pub fn get(&self, k: &u64) -> (r: Option<&u32>) { unimplemented!() } }
+impl PeerStreams {
+    pub uninterp spec fn view(&self) -> Map<u64, u32>;
+    #[verifier::external_body] pub fn get(&self, k: &u64) -> (r: Option<&u32>)
+        ensures r.is_some() == self@.contains_key(*k), r.is_some() ==> *r.unwrap() == self@[*k] { unimplemented!() }
+}
+// "the smaller of the two sides' announced limits", a capability the peer did not announce counting as 0; summed over the first k capabilities
+pub open spec fn agreed_one(c: (u64, u32), peer: Map<u64, u32>) -> int {
+    let p = if peer.contains_key(c.0) { peer[c.0] as int } else { 0 };
+    if c.1 <= p { c.1 as int } else { p }
+}
+pub open spec fn agreed(c: Seq<(u64, u32)>, peer: Map<u64, u32>, k: int) -> int decreases k {
+    if k <= 0 { 0 } else { agreed(c, peer, k - 1) + agreed_one(c[k - 1], peer) }
+}
+pub proof fn lemma_agreed_le(c: Seq<(u64, u32)>, peer: Map<u64, u32>, k: int)
+    requires 0 <= k <= c.len(), ensures 0 <= agreed(c, peer, k) <= cap_sum(c, k), decreases k
+{ if k > 0 { lemma_agreed_le(c, peer, k - 1); } }
 pub struct MuxHandshake { pub accept_max_streams: PeerStreams, pub connect_max_streams: PeerStreams }
 pub open spec fn cap_sum(c: Seq<(u64, u32)>, k: int) -> int decreases k { if k <= 0 { 0 } else { cap_sum(c, k - 1) + c[k - 1].1 } }
 pub proof fn lemma_cap_sum_nonneg(c: Seq<(u64, u32)>, k: int)
@@ -416,29 +474,35 @@ def add_spawn(U):
          subs=[("vec![]", "Vec::new()   /* R-std */"),
                ("_ => unreachable!(\"bad StreamKind\"),", "_ => { assert(false);   /* R-dbg: unreachable! as proof obligation */ (&self.accept, &handshake.connect_max_streams) }"),
                ("std::cmp::min(", "verif_min_u32(   /* R-std */", None), ("std::cmp::max(", "verif_max_u32(   /* R-std */", None),
-               ("*peer.get(cap).unwrap_or(&0)", "verif_deref_or_zero(peer.get(cap))   /* R-std */"),
+               ("*peer.get(cap).unwrap_or($D)", "verif_deref_or(peer.get(cap), $D)   /* R-std */"),
                ("channel::unbounded()", "channel_unbounded()"),
                ("streams.len() as u16", "verif_usize_to_u16(streams.len())   /* R-cast: must not truncate */")],
          regions=[("let stream = ReusableStream {", "scope.spawn_bg(stream.run(ctx));", "verif_spawn_stream(scope, stream_id, stream_kind, read_recv);   /* R-stub */")],
          index_loops={0: dict(prefix="for (cap, queue) in queues", len="queues.len()", spec_len="queues.caps().len()", at="queues.cap_at({i})", pat="(cap, queue)",
-                              inv="""        {i} <= queues.caps().len(), streams@.len() <= cap_sum(queues.caps(), {i} as int),
-        cap_sum(queues.caps(), queues.caps().len() as int) <= 8192,""",
-                              body_start="proof { lemma_cap_sum_mono(queues.caps(), {i} as int, queues.caps().len() as int); }")},
+                              inv="""        {i} <= queues.caps().len(), streams@.len() == agreed(queues.caps(), peer@, {i} as int),
+        cap_sum(queues.caps(), queues.caps().len() as int) <= 8192, agreed(queues.caps(), peer@, {i} as int) <= 8192,""",
+                              body_start="proof { lemma_cap_sum_mono(queues.caps(), {i} as int, queues.caps().len() as int); lemma_agreed_le(queues.caps(), peer@, {i} as int); lemma_agreed_le(queues.caps(), peer@, {i} as int - 1); }")},
          loops={1: dict(prefix="for _ in 0..max_streams", iter="verif_it", inv="""
-            verif_i0 >= 1, verif_i0 <= queues.caps().len(), max_streams <= queues.caps()[verif_i0 - 1].1,
-            streams@.len() <= cap_sum(queues.caps(), verif_i0 - 1) + verif_it.index@,
-            cap_sum(queues.caps(), verif_i0 as int) <= 8192,
+            verif_i0 >= 1, verif_i0 <= queues.caps().len(), max_streams as int == agreed_one(queues.caps()[verif_i0 - 1], peer@),
+            streams@.len() == agreed(queues.caps(), peer@, verif_i0 - 1) + verif_it.index@,
+            agreed(queues.caps(), peer@, verif_i0 as int) <= cap_sum(queues.caps(), verif_i0 as int) <= 8192,
 """)},
          spec="""
     requires self.verified(),      // established by Mux::verify() at the start of Mux::run
              stream_kind == StreamKind::ACCEPT || stream_kind == StreamKind::CONNECT,
     // whatever stream counts the PEER announces: every id fits the 13-bit field (StreamId::new's assert!) and `as u16` is exact
     ensures streams_out@.len() <= 8192,
+            // per capability exactly min(own limit, limit the peer announced or 0) reusable streams exist: "the number of concurrently
+            // open sub-streams per capability never exceeds the smaller of the two sides' announced limits"
+            streams_out@.len() == agreed(
+                if stream_kind == StreamKind::ACCEPT { self.accept.caps() } else { self.connect.caps() },
+                if stream_kind == StreamKind::ACCEPT { handshake.connect_max_streams@ } else { handshake.accept_max_streams@ },
+                (if stream_kind == StreamKind::ACCEPT { self.accept.caps() } else { self.connect.caps() }).len() as int),
 """)
     U.raw("""
 #[verifier::external_body] pub fn verif_min_u32(a: u32, b: u32) -> (r: u32) ensures r == (if a <= b { a } else { b }) { std::cmp::min(a, b) }   // A1 (R-std)
 #[verifier::external_body] pub fn verif_max_u32(a: u32, b: u32) -> (r: u32) ensures r == (if a >= b { a } else { b }) { std::cmp::max(a, b) }   // A1 (R-std)
-#[verifier::external_body] pub fn verif_deref_or_zero(o: Option<&u32>) -> (r: u32) ensures o matches Some(v) ==> r == *v, o.is_none() ==> r == 0 { *o.unwrap_or(&0) }   // A1 (R-std)
+#[verifier::external_body] pub fn verif_deref_or(o: Option<&u32>, d: &u32) -> (r: u32) ensures o matches Some(v) ==> r == *v, o.is_none() ==> r == *d { *o.unwrap_or(d) }   // A1 (R-std)
 #[verifier::external_body] pub fn verif_usize_to_u16(n: usize) -> (r: u16) requires n <= u16::MAX ensures r == n { n as u16 }
 """, label="std wrappers spawn")
 
